@@ -23,7 +23,7 @@ impl Prop for C04 {
     fn assumptions(&self) -> Vec<String> {
         vec![
             "dead branches are lexically well formed (the preprocessor grammar parses them)".into(),
-            "macro names that are SystemVerilog keywords are not used as `ifdef/`undef operands (rejected by the implementation; not part of this property's search)".into(),
+            "macro names that are SystemVerilog keywords (wire, begin) are used as `ifdef / `elsif / `undef operands as well".into(),
         ]
     }
     fn campaigns(&self, _ctx: &Ctx) -> Vec<Campaign> {
